@@ -35,7 +35,9 @@ def serialize_json(
         for the provided element(s).
     """
     primary = elements[0]
-    object_classes = get_object_classes(*elements)
+    object_classes = get_object_classes(
+        *elements, *(definitions or {}).values()
+    )
     serialize = partial(
         _serialize_element, object_refs=True, definitions=definitions
     )
